@@ -282,7 +282,7 @@ void directedGravityGroundNaN(pbt::Ctx& ctx) {
 
 pbt::Config config() {
     pbt::Config c; c.prop = "C38"; c.K = mbgen::K; c.minUnits = 1;
-    c.quick = {3000, 20000, 40, 25}; c.thorough = {30000, 120000, 48, 150};
+    c.quick = {3000, 12000, 40, 20}; c.thorough = {30000, 120000, 48, 100};
     c.rule = "rapidcheck tape -> mbgen tree (1..6 bodies, all 18 mobilizer types, reversed, general frames, Euler/quaternion) + 1..8 built-in non-contact force elements (15 kinds, random parameters/attachments; coordinate springs/stops only on mobilizers with qdot==u) + history of <= 16 operations (state-level parameter setters, enable/disable, gravity exclusions, q/u changes, partial realizations); after (most) operations realize(Dynamics) and compare every element's calcForceContribution/PE/accessors and the system force and energy totals with the documented laws evaluated from reported kinematics. Non-trivial: the history contains a parameter / enable / exclusion operation that changes a value after a realization; distinct by tape hash.";
     c.assumptions = {"reported body poses/velocities and mobilizer q,u,qdot are taken as given (C03/C05)", "TwoPoint* elements with points closer than 1e-3 and LinearBushing with |cos(middle angle)| < 0.15 are not judged (documented error / singular configurations)",
                      "tolerance 1e-12 * (1 + sum of force magnitudes x (1 + lever arms)); bushing scaled by 1/cos^2(middle angle)"};
